@@ -208,6 +208,20 @@ Proof.
     destruct (find _ (lwt (getl s1 l))) as [[f t0]|]; [|exact E1].
     destruct (pq_reschedule HQ _ _ _) as [[o q']|]; exact E1.
 Qed.
+Lemma propagate_task_futs fuel : forall s t, futs (propagate_task fuel s t) = futs s.
+Proof.
+  induction fuel as [|fuel IH]; intros s t; cbn [propagate_task].
+  - destruct (negb (is_prio_task s t)); [reflexivity|].
+    destruct (task_is_runnable s t); [reflexivity|].
+    destruct (twaiting (gett s t)); reflexivity.
+  - destruct (negb (is_prio_task s t)); [reflexivity|].
+    destruct (task_is_runnable s t); [reflexivity|].
+    destruct (twaiting (gett s t)) as [l|]; [|reflexivity].
+    set (s1 := match lowner (getl s l) with Some o => propagate_task fuel s o | None => s end).
+    assert (E1 : futs s1 = futs s) by (unfold s1; destruct (lowner (getl s l)); [apply IH|reflexivity]).
+    destruct (find _ (lwt (getl s1 l))) as [[f t0]|]; [|exact E1].
+    destruct (pq_reschedule HQ _ _ _) as [[o q']|]; exact E1.
+Qed.
 Lemma sv_propagate s t : same_view s (propagate_priority s t).
 Proof. apply sv_propagate_task. Qed.
 
@@ -362,10 +376,17 @@ Proof.
   assert (V2 : same_view s1 s2 /\ conds s2 = conds s1).
   { unfold s2. destruct (pq_remove HQ _ _) as [[p q']|]; [|split; [apply sv_refl|reflexivity]].
     split; [apply sv_setl; reflexivity|reflexivity]. }
-  set (s3 := if llocked (getl s2 l) then s2 else wake_up_first_p s2 l).
+  set (s3 := if llocked (getl s2 l)
+             then match lowner (getl s2 l) with
+                  | Some o => if Nat.eqb o t then s2 else propagate_priority s2 o
+                  | None => s2 end
+             else wake_up_first_p s2 l).
   assert (V3 : same_view s2 s3 /\ conds s3 = conds s2).
-  { unfold s3. destruct (llocked (getl s2 l)); [split; [apply sv_refl|reflexivity]|].
-    split; [apply sv_wake_p|apply wake_p_conds]. }
+  { unfold s3. destruct (llocked (getl s2 l)).
+    - destruct (lowner (getl s2 l)) as [o|]; [|split; [apply sv_refl|reflexivity]].
+      destruct (Nat.eqb o t); [split; [apply sv_refl|reflexivity]|].
+      split; [apply sv_propagate|]. unfold propagate_priority. now rewrite propagate_task_conds.
+    - split; [apply sv_wake_p|apply wake_p_conds]. }
   destruct V2 as [V2 C2]. destruct V3 as [V3 C3].
   assert (V23 : same_view s1 s3) by (eapply sv_trans; eauto).
   destruct had; cbn [fst snd]; (split; [reflexivity|]);
@@ -389,10 +410,17 @@ Proof.
   assert (V2 : same_view s s2 /\ conds s2 = conds s).
   { unfold s2. destruct (pq_remove HQ _ _) as [[p q']|]; [|split; [apply sv_refl|reflexivity]].
     split; [apply sv_setl; reflexivity|reflexivity]. }
-  set (s3 := if llocked (getl s2 l) then s2 else wake_up_first_p s2 l).
+  set (s3 := if llocked (getl s2 l)
+             then match lowner (getl s2 l) with
+                  | Some o => if Nat.eqb o t then s2 else propagate_priority s2 o
+                  | None => s2 end
+             else wake_up_first_p s2 l).
   assert (V3 : same_view s2 s3 /\ conds s3 = conds s2).
-  { unfold s3. destruct (llocked (getl s2 l)); [split; [apply sv_refl|reflexivity]|].
-    split; [apply sv_wake_p|apply wake_p_conds]. }
+  { unfold s3. destruct (llocked (getl s2 l)).
+    - destruct (lowner (getl s2 l)) as [o|]; [|split; [apply sv_refl|reflexivity]].
+      destruct (Nat.eqb o t); [split; [apply sv_refl|reflexivity]|].
+      split; [apply sv_propagate|]. unfold propagate_priority. now rewrite propagate_task_conds.
+    - split; [apply sv_wake_p|apply wake_p_conds]. }
   destruct V2 as [V2 C2]. destruct V3 as [V3 C3].
   assert (V23 : same_view s s3) by (eapply sv_trans; eauto).
   destruct had; cbn [fst snd]; (split; [reflexivity|]).
@@ -472,9 +500,16 @@ Proof.
                                  <| lwt := filter (fun pr => negb (Nat.eqb (fst pr) f)) (lwt (getl s1 l)) |>)
              | None => s1 end).
   assert (E2 : futs s2 = futs s1) by (unfold s2; destruct (pq_remove HQ _ _) as [[? ?]|]; reflexivity).
-  set (s3 := if llocked (getl s2 l) then s2 else wake_up_first_p s2 l).
+  set (s3 := if llocked (getl s2 l)
+             then match lowner (getl s2 l) with
+                  | Some o => if Nat.eqb o t then s2 else propagate_priority s2 o
+                  | None => s2 end
+             else wake_up_first_p s2 l).
   assert (E3 : length (futs s3) = length (futs s2)).
-  { unfold s3. destruct (llocked (getl s2 l)); [reflexivity|apply wake_p_flen]. }
+  { unfold s3. destruct (llocked (getl s2 l)); [|apply wake_p_flen].
+    destruct (lowner (getl s2 l)) as [o|]; [|reflexivity].
+    destruct (Nat.eqb o t); [reflexivity|].
+    unfold propagate_priority. now rewrite propagate_task_futs. }
   destruct had; cbn [fst]; [change (length (futs s3) = length (futs s))|]; congruence.
 Qed.
 
